@@ -1375,8 +1375,10 @@ vnacal_t *vnacal_load(const char *pathname,
 	_vnacal_error(vcp, VNAERR_SYNTAX, "%s (line %ld) error: %s",
 		vcp->vc_filename, (long)parser.problem_mark.line + 1,
 		parser.problem);
+	yaml_parser_delete(&parser);
 	goto error;
     }
+    yaml_parser_delete(&parser);
     delete_document = true;
     (void)fclose(fp);
     fp = NULL;
